@@ -4,5 +4,5 @@ props=$1; seeds=$2; tier=${3:-quick}
 mkdir -p /verif/build/sweep
 for s in $seeds; do for p in $props; do
   ( VERIF_SEED=$s VERIF_EVID=/verif/build/sweep/ev_$s ./check $p --tier $tier > /verif/build/sweep/$p.$s.log 2>&1; echo "$p seed=$s rc=$? $(grep -c '^DRIFT' /verif/build/sweep/$p.$s.log) drift $(tail -1 /verif/build/sweep/$p.$s.log | cut -c1-120)" ) &
-  while [ $(jobs -r | wc -l) -ge 4 ]; do sleep 1; done
+  while [ $(jobs -r | wc -l) -ge ${SWEEP_JOBS:-4} ]; do sleep 1; done
 done; done; wait
